@@ -1,5 +1,5 @@
 From Coq Require Import Extraction ExtrOcamlBasic.
-From Elk Require Import Base.GoSem Model.C23_Iter.
+From Elk Require Import Base.GoSem Model.C23_Iter Model.C23_Nil.
 Extraction Language OCaml.
-Separate Extraction run_range run_listiter run_failiter run_list rcontains relements range_next list_next unroll prefix
+Separate Extraction run_nlistiter run_nfailiter run_nlist run_range run_listiter run_failiter run_list rcontains relements range_next list_next unroll prefix
   succ_wrap_s iterable finite Z.of_nat Z.to_nat Z.add Z.sub Z.succ Z.eqb Z.ltb Z.leb Pos.to_nat Z.to_N N.add.
